@@ -38,10 +38,8 @@ package lfsapi
 //@   requires len(via) <= 2
 //@   decreases 3 - len(via), 0
 
-// getCreds is a separate unit (its body is not spliced into doWithAuth).
-//@ func (*Client).getCreds
-//@   props C10
-//@   requires @inv req != nil && req.URL != nil
+// getCreds is a separate unit (its body is not spliced into doWithAuth); its
+// contract is further down.
 
 // Assumed: adding the configured extra headers keeps header keys canonical
 // (extraHeaders canonicalises them) and yields a non-nil header map.
@@ -50,3 +48,17 @@ package lfsapi
 //@   props C10
 //@   modifies fresh
 //@   ensures result != nil && forall_v(k, has(result, k), has(result, k) ==> str_canon(k) == k)
+
+// C10: credentials the helpers returned are put on the request only when they
+// were asked for with the URL getCredURLForAPI chose for this very request
+// (same scheme and host:port as the request, by that function's contract).
+//@ func (*Client).getCreds
+//@   props C10
+//@   requires @inv c != nil && req != nil && req.URL != nil && req.Header != nil && c.credContext != nil
+//@   at call (*lfsapi.Client).getGitCredsWrapper:1 assert arg3__ == credsURL && arg2__ == req && credsURL != nil
+//@   at call lfsapi.setRequestAuthWithCreds:1 assert arg0__ == req && err == nil
+//@   at call lfsapi.getCredURLForAPI:1 assert arg4__ == req
+//@ func (*Client).getGitCredsWrapper
+//@   props C10
+//@   requires @inv c != nil && c.credContext != nil
+//@   at call (*creds.CredentialHelperContext).GetCredentialHelper:1 assert arg2__ == u
